@@ -314,23 +314,7 @@ func runC12(e *Engine, r *Report) {
 			})
 		}
 		r.floor("WMC-completed", n, 5)
-		// in proposalShard.applied: Completed only when not rejected
-		if ap := e.Func("(*dragonboat.proposalShard).applied"); ap != nil {
-			forEachInstr(ap, func(in ssa.Instruction) {
-				ph, ok := in.(*ssa.Phi)
-				if !ok {
-					return
-				}
-				for i, ed := range ph.Edges {
-					if constV(cc)(ed) && ed.Type().String() == cc.Type().String() {
-						fs := expandFacts(edgeFacts(ph.Block().Preds[i], ph.Block()))
-						okr := hasBoolFact(fs, func(v ssa.Value) bool { p, ok := v.(*ssa.Parameter); return ok && p.Name() == "rejected" }, false)
-						r.check(okr, "WMC-completed", "Completed in proposalShard.applied only when not rejected", e.ipos(in),
-							"a rejected proposal is reported Rejected", "a rejected proposal can be reported Completed")
-					}
-				}
-			})
-		}
+		ruleCompletedNotRejected(e, r)
 	}
 	// ---- apply callback carries the state machine's result to the table
 	ruleAppliedArg(e, r)
